@@ -32,6 +32,10 @@ def cfg_faults(rng: random.Random, gen, ent, enc, info):
         short = enc['encapsulee'].split('.')[-1]
         if short not in names:
             out.append(('unknown-encapsulee:unqualified', dict(enc, encapsulee=short)))
+    # degenerate spellings: no identifier at all, an empty identifier
+    out.append(('unknown-encapsulee:empty-name', dict(enc, encapsulee='')))
+    out.append(('unknown-encapsulee:empty-identifier', dict(enc, encapsulee=enc['encapsulee'] + '.')))
+    out.append(('unknown-encapsulee:empty-leading-identifier', dict(enc, encapsulee='.' + enc['encapsulee'])))
     # encapsulee of the wrong kind
     for kind in ('interfaces', 'enums', 'externs', 'foreigns', 'subints'):
         cands = ['.'.join(f) for k, f, _o in decls if k == kind]
@@ -50,6 +54,10 @@ def cfg_faults(rng: random.Random, gen, ent, enc, info):
                 else enc[side]['mts' if sem == 'sts' else 'sts']
             trials.append((f'unknown-port-name:{side}',
                            {side: {sem: new, ('mts' if sem == 'sts' else 'sts'): other}}))
+            if sem == 'mts':
+                empty = sorted(set(sel) | {''}) if isinstance(sel, list) else ['']
+                trials.append((f'unknown-port-name:empty:{side}',
+                               {side: {sem: empty, 'sts': other}}))
         exposed = info[side]
         if exposed:
             both = sorted(rng.sample(exposed, rng.randint(1, len(exposed))))
@@ -92,6 +100,11 @@ def cfg_faults(rng: random.Random, gen, ent, enc, info):
                            '.'.join(m['itf_fqn']) == info['ports'][mc['port']]['itf'])
         out.append(('mc-reply-value-not-in-enum',
                     dict(enc, multiclient=dict(mc, reply=[fresh(rng, set(enum_fields), 'camel')]))))
+        out.append(('mc-empty-port-name', dict(enc, multiclient=dict(mc, port=''))))
+        out.append(('mc-empty-claim-event-name', dict(enc, multiclient=dict(mc, claim=''))))
+        out.append(('mc-empty-release-event-name', dict(enc, multiclient=dict(mc, release=''))))
+        out.append(('mc-empty-reply-value', dict(enc, multiclient=dict(mc, reply=[]))))
+        out.append(('mc-reply-value-empty-identifier', dict(enc, multiclient=dict(mc, reply=['']))))
         kind_of = {'.'.join(f): k for k, f, _o in decls}
         for ev in itf.events:
             if ev.direction != 'in' or ev.name == mc['release']:
